@@ -36,7 +36,14 @@ fn main() {
     );
     let mut cw = CaseWriter::new("RV.Corr.C03_run RV.Model.C03_Ledger", "check");
     let root = Rng::new(args.seed);
-    let mut world = World::new();
+    let mut world = match World::try_new() {
+        Ok(w) => w,
+        Err(msg) => {
+            report.oracle_failure(0, "", &format!("the engine failed while bootstrapping the ledger and creating accounts: {}", msg.chars().take(400).collect::<String>()), json!({"phase": "bootstrap", "seed": args.seed}));
+            report.write(&args.out).unwrap();
+            return;
+        }
+    };
     let mut pre = scan(world.db());
     let zero = BigInt::from(0);
     for i in 0..args.cases {
